@@ -164,7 +164,11 @@ func (p *parser) parseBinaryExpr(left Node) Node {
 	if expType == EMPTY_ARRAY && binaryExp.Right.Type().Name == ARRAY {
 		binaryExp.T = binaryExp.Right.Type() // array concatenation e.g. [] + [1 2]
 	}
+	errCount := len(p.errors)
 	p.validateBinaryType(binaryExp)
+	if len(p.errors) > errCount {
+		return nil // ill-typed: do not hand the node on to type conversion
+	}
 	if p.isWSS() {
 		p.formatting.recordWSS(binaryExp)
 	}
